@@ -18,12 +18,27 @@ class FabScenario:
         self.subs = subs        # [(id, isAO)]
         self.progs = progs      # [[(call, a, b, c)]]
 
+    names = None        # optional: the real signal names used for the scenario's signal indices (default S0, S1, ...)
+
+    def name(self, b):
+        return self.names[b] if self.names else "S%d" % b
+
+    def index(self, signal_name):
+        if self.names and signal_name in self.names:
+            return str(self.names.index(signal_name))
+        return signal_name[1:]
+
     def to_json(self):
-        return {"subs": self.subs, "progs": self.progs}
+        d = {"subs": self.subs, "progs": self.progs}
+        if self.names:
+            d["names"] = self.names
+        return d
 
     @staticmethod
     def from_json(d):
-        return FabScenario([tuple(x) for x in d["subs"]], [[tuple(c) for c in p] for p in d["progs"]])
+        sc = FabScenario([tuple(x) for x in d["subs"]], [[tuple(c) for c in p] for p in d["progs"]])
+        sc.names = d.get("names")
+        return sc
 
     def encode(self, sched, tags=9):
         toks = ["fab", tags, len(self.subs)]
@@ -89,6 +104,26 @@ def gen_structured(rng):
     return FabScenario(subs, [p])
 
 
+RESERVED_NAMES = ["STOP_FABRIC_SIGNAL", "STOP_ACTIVE_OBJECT_SIGNAL", "SUBSCRIBE_META_SIGNAL", "PUBLISH_META_SIGNAL", "ENTRY_SIGNAL",
+                  "EXIT_SIGNAL", "INIT_SIGNAL", "REFLECTION_SIGNAL", "EMPTY_SIGNAL", "SEARCH_FOR_SUPER_SIGNAL"]
+
+
+def gen_reserved(rng):
+    """subscribe*, start, publish* where the signals are names the library itself uses internally (a signal is a signal: the
+    fabric delivers by name); no stop / clear, so none of the fabric's own wake-up items is in flight"""
+    nq = rng.randint(2, 4)
+    subs = [(i, rng.random() < 0.5) for i in range(nq)]
+    p = []
+    for _ in range(rng.randint(3, 8)):
+        p.append(("subscribe", rng.randrange(nq), rng.randrange(NSIG), rng.randrange(2)))
+    p.append(("start", 0, 0, 0))
+    for uid in range(rng.randint(3, 8)):
+        p.append(("publish", rng.randrange(NSIG), uid, rng.choice([1000, 1000, 5, 1])))
+    sc = FabScenario(subs, [p])
+    sc.names = rng.sample(RESERVED_NAMES, NSIG)
+    return sc
+
+
 class FabRun:
     pass
 
@@ -117,7 +152,7 @@ def run_real(sc, chooser, max_steps=4000):
                     sched.yield_point("call." + call)
                     if call == "subscribe":
                         # by event or by signal number; fifo also through the default
-                        what = Event(signal="S%d" % b) if (a + b) % 3 else Event(signal="S%d" % b).signal
+                        what = Event(signal=sc.name(b)) if (a + b) % 3 else Event(signal=sc.name(b)).signal
                         if c:
                             af.subscribe(queues[a], what, queue_type="lifo")
                         elif (a + b) % 2:
@@ -126,9 +161,9 @@ def run_real(sc, chooser, max_steps=4000):
                             af.subscribe(queues[a], what)
                     elif call == "publish":
                         if c == 1000 and b % 2:
-                            af.publish(Event(signal="S%d" % a, payload=b))          # default priority
+                            af.publish(Event(signal=sc.name(a), payload=b))          # default priority
                         else:
-                            af.publish(Event(signal="S%d" % a, payload=b), priority=c)
+                            af.publish(Event(signal=sc.name(a), payload=b), priority=c)
                     elif call == "start":
                         af.start()
                     elif call == "stop":
@@ -154,15 +189,17 @@ def run_real(sc, chooser, max_steps=4000):
             for t in sched.threads:
                 if t.error is not None:
                     fr.errors.append("%s: %s: %s" % (t.name, type(t.error).__name__, t.error))
-            ev = lambda e: "%s.%s" % (e.signal_name[1:], e.payload)
+            ev = lambda e: "%s.%s" % (sc.index(e.signal_name), e.payload)
             fr.subs = {i: [ev(e) for e in (q.deque.raw() if hasattr(q, "locking_queue") else list(q))] for i, q in queues.items()}
-            reg = lambda d: ";".join("%s>%s" % (k[1:], ",".join(str(next(i for i, q in queues.items() if q is x)) for x in v))
+            reg = lambda d: ";".join("%s>%s" % (sc.index(k), ",".join(str(next(i for i, q in queues.items() if q is x)) for x in v))
                                       for k, v in d.items())
             fr.regF, fr.regL = reg(af.fifo_subscriptions), reg(af.lifo_subscriptions)
             fr.live = {kind: sum(1 for t in sched.threads if t.name.startswith(kind + " active fabric") and not t.finished)
                        for kind in ("fifo", "lifo")}
             fr.fq, fr.lq = af.fifo_fabric_queue._qsize(), af.lifo_fabric_queue._qsize()
             fr.flag = int(af.fabric_task_event._flag)
+            fr.heap_bad = [k for k, pq in (("fifo", af.fifo_fabric_queue), ("lifo", af.lifo_fabric_queue))
+                           if isinstance(getattr(pq, "queue", None), list) and not is_heap(list(pq.queue))]
             fr.alive = [r for _, r in sorted(alive_results, key=lambda x: x[0])]
             fr.handles_alive = [af.fifo_thread is not None and af.fifo_thread._st is not None and not af.fifo_thread._st.finished,
                                 af.lifo_thread is not None and af.lifo_thread._st is not None and not af.lifo_thread._st.finished]
@@ -256,6 +293,10 @@ def oracle(run, focus, sc, fr, cj, structured):
     for kind in ("fifo", "lifo"):
         if fr.max_live[kind] > 1:
             run.violate("C13/more-than-one-%s-thread" % kind, "%d live %s delivery threads at the same time" % (fr.max_live[kind], kind), cj)
+    if getattr(fr, "heap_bad", None):
+        # C08_heap_reachable: whatever was put and got, the array under the fabric's PriorityQueue satisfies the heap condition
+        run.violate("C08/heap-layout", "the array under the %s fabric queue is not a heap any more (a later get may not return the least "
+                    "(priority, creation number))" % fr.heap_bad, cj)
     if fr.outcome == "quiescent":
         k_done = all(v for n, v in fr.finished.items() if n.startswith("K"))
         if not k_done:
@@ -399,6 +440,9 @@ def explore(run, focus, n_random):
         sc = gen_restart(rng) if restart else (gen_structured(rng) if structured else gen_chaotic(rng))
         if restart:
             structured = False
+        if n % 10 == 7:
+            sc, structured, restart = gen_reserved(rng), True, False
+            run.count("signals that the library also uses internally: " + ",".join(sorted(sc.names)))
         seed = rng.randrange(1 << 30)
         r2 = random.Random(seed)
         if r2.random() < 0.5:
@@ -738,6 +782,70 @@ def explore_subscribe_race(run, n):
         run.case(cj, nontrivial=True)
 
 
+def number_subscription_race_run(spec, chooser):
+    import small_corr, types
+    import miros.event as mevent
+    with dsched.Installed():
+        saved = getattr(mevent, "_registry_lock", None)
+        if saved is not None:
+            mevent._registry_lock = dsched.DRLock()
+        try:
+            af = mao.ActiveFabricSource()
+            qs = [collections.deque(maxlen=20) for _ in range(2)]
+            names = ["NUMSUB_%s_%d" % (spec["tag"], k) for k in range(2)]
+            numbers = [Event(signal=nm).signal for nm in names]          # registered before the threads start
+            fresh = ["FRESH_%s_%d" % (spec["tag"], k) for k in range(spec["fresh"])]
+
+            def subscriber():
+                for k in range(2):
+                    n = int(str(numbers[k]))                             # a number as a program holds it: an equal int
+                    af.subscribe(qs[k], n, queue_type=spec["kind"])
+
+            def registrar():
+                for nm in fresh:
+                    if spec["via"] == "event":
+                        Event(signal=nm)
+                    else:
+                        getattr(mevent.signals, nm)
+            codes = [c for c in small_corr.class_codes(mevent.SignalSource) if c.co_name != "__init__"]
+            codes += [mao.ActiveFabricSource.subscribe.__code__] + [c for c in mao.ActiveFabricSource.subscribe.__code__.co_consts
+                                                                     if isinstance(c, types.CodeType)]
+            order, errors, outcome, fin = small_corr.run_threads([subscriber, registrar], chooser, codes)
+            reg = af.fifo_subscriptions if spec["kind"] == "fifo" else af.lifo_subscriptions
+            got = {nm: [next(i for i, q in enumerate(qs) if q is x) for x in (v.values() if isinstance(v, dict) else v)]
+                   for nm, v in reg.items()}
+            return order, errors, got, names
+        finally:
+            if saved is not None:
+                mevent._registry_lock = saved
+
+
+def explore_number_subscription_race(run, focus, n):
+    """a subscription given as a signal NUMBER (the path ActiveObject.subscribe(signals.X) takes: the number is turned back into a
+    name) while another thread registers signal names that are new to the program, every bytecode of the registry and of subscribe
+    a scheduling point (oracle only): the subscribing call returns normally and the registry holds the subscription"""
+    rng = run.rng
+    for _ in range(n):
+        spec = {"kind": rng.choice(["fifo", "lifo"]), "fresh": rng.randint(1, 3), "via": rng.choice(["event", "attribute"]),
+                "tag": "%d_%d" % (run.seed, rng.randrange(1 << 30))}
+        seed = rng.randrange(1 << 30)
+        r2 = random.Random(seed)
+        chooser = dsched.pct_chooser(r2, depth=r2.randint(1, 3), est_len=300) if r2.random() < 0.4 else dsched.random_chooser(r2)
+        order, errors, got, names = number_subscription_race_run(spec, chooser)
+        cj = {"what": "number-subscription-race", "spec": spec, "seed": seed, "schedule": order}
+        run.count("subscription by signal number racing the registration of new names (bytecode level)")
+        run.traces_validated += 1
+        if errors:
+            run.violate("%s/subscribe-by-number-failed" % focus, "subscribing by signal number while another thread registers new signal names "
+                        "failed: %s" % errors[:2], cj)
+        else:
+            for k, nm in enumerate(names):
+                if got.get(nm, []).count(k) != 1:
+                    run.violate("%s/subscribe-by-number-lost" % focus, "the subscription of queue %d to signal number of %s returned but the registry "
+                                "holds %s" % (k, nm, got.get(nm)), cj)
+        run.case(cj, nontrivial=True)
+
+
 def explore_fe_order(run, n):
     """FabricEvent ordering far beyond what a schedule can queue up: pairs and triples of fabric events whose creation numbers
     are up to 10^7 apart (a delivery thread that lags that far), all priorities a caller may pass: `<` is the lexicographic
@@ -779,10 +887,90 @@ def explore_fe_order(run, n):
         run.case(cj, nontrivial=True)
 
 
+def is_heap(items):
+    """the heap condition of CPython's heapq for the comparator of the items themselves"""
+    return all(not (items[i] < items[(i - 1) >> 1]) for i in range(1, len(items)))
+
+
+def explore_heap(run, n):
+    """tie of the Lean heap model (`Data.Heap`, family `heap`): random put/get sequences on a real queue.PriorityQueue holding real
+    FabricEvent objects (many equal priorities, creation numbers handed out by the real class counter, sometimes far apart);
+    after every operation the array layout `PriorityQueue.queue` and every returned element are compared with the model's"""
+    import queue as _queue
+    rng = run.rng
+    cases = []
+    lines = []
+    for _ in range(n):
+        k = rng.randint(1, 40)
+        pq = _queue.PriorityQueue()
+        ops, real = [], []
+        saved = mao.FabricEvent.sequence
+        jump = rng.random() < 0.2
+        try:
+            if jump:
+                import itertools
+                mao.FabricEvent.sequence = itertools.count(rng.choice([65530, 2 ** 31 - 5, 10 ** 7]))
+            prio_pool = rng.choice([[1, 2, 3], [1000], [1, 1000], [5, 5, 5, 7], list(range(1, 20))])
+            for _ in range(k):
+                if rng.random() < 0.62 or pq.qsize() == 0 and rng.random() < 0.9:
+                    pr = rng.choice(prio_pool)
+                    fe = mao.FabricEvent(Event(signal="S0"), pr)
+                    pq.put(fe)
+                    ops.append((1, pr, fe.sequence_number))
+                    real.append(",".join("%d:%d" % (x.priority, x.sequence_number) for x in pq.queue))
+                else:
+                    ops.append((0,))
+                    if pq.qsize() == 0:
+                        real.append("empty|")
+                    else:
+                        x = pq.get_nowait()
+                        real.append("%d:%d|" % (x.priority, x.sequence_number) + ",".join("%d:%d" % (y.priority, y.sequence_number) for y in pq.queue))
+            heap_ok = is_heap(list(pq.queue))
+        finally:
+            mao.FabricEvent.sequence = saved
+        toks = ["heap", 9, len(ops)]
+        for o in ops:
+            toks += list(o)
+        lines.append(" ".join(str(t) for t in toks))
+        cases.append(({"what": "heap", "ops": ops}, ";".join(real) + " heap=%d" % int(heap_ok)))
+    outs = leanrun.run_driver(lines) if lines else []
+    for (cj, real), out in zip(cases, outs):
+        run.traces_validated += 1
+        run.count("heap layout stream: put/get sequences on a real PriorityQueue of FabricEvents")
+        if out.strip() != real:
+            a, b = out.strip().split(";"), real.split(";")
+            k = next((i for i in range(min(len(a), len(b))) if a[i] != b[i]), min(len(a), len(b)))
+            popped = [x.split("|")[0] for x in b if "|" in x and not x.startswith("empty")]
+            pushed = []
+            bad = None
+            # implementation-side oracle: every get returns the least (priority, creation number) among what is inside
+            inside = []
+            for o, r in zip(cj["ops"], b):
+                if o[0] == 1:
+                    inside.append((o[1], o[2]))
+                elif inside:
+                    got = tuple(int(v) for v in r.split("|")[0].split(":"))
+                    if got != min(inside):
+                        bad = "get returned %s while %s was waiting" % (got, min(inside))
+                        break
+                    inside.remove(got)
+            if bad:
+                run.violate("C08/heap-order", "PriorityQueue of fabric events: %s" % bad, cj)
+            run.disagree("heap layout of the fabric's PriorityQueue", cj, "first difference at operation %d\nmodel: %s\nreal:  %s" % (
+                k, ";".join(a[max(0, k - 1):k + 2]), ";".join(b[max(0, k - 1):k + 2])), None)
+        run.case(cj, nontrivial=True)
+
+
 def replay(case):
     cc = case.get("case", case)
+    if cc.get("what") == "heap":
+        print(cc)
+        return 0
     if cc.get("what") == "fe-order":
         print(cc)
+        return 0
+    if cc.get("what") == "number-subscription-race":
+        print(number_subscription_race_run(cc["spec"], dsched.scripted_chooser(["T%d" % i for i in cc["schedule"]], then=dsched.round_robin_chooser())))
         return 0
     if cc.get("what") == "subscribe-race":
         import small_corr
